@@ -81,7 +81,7 @@ def cases(rng, tier, Case):
             k = max_run(t, "`") + 1
             # what precedes the span: plain text, an escaped backtick right before the opener, or an earlier
             # paragraph with an unmatched backtick run of the same length (closer caches must not leak)
-            pre = rng.choice(["a ", "a ", "a ", "\\`", "x \\`", "q " + "`" * k + " w\n\na ", "o" + "`" * k + "c " + "`" * (k + 1) + "\n\n"])
+            pre = rng.choice(["a ", "a ", "a ", "\\`", "x \\`", "q " + "`" * k + " w\n\na ", "o" + "`" * k + "c " + "`" * (k + 1) + "\n\nz "])
             d = pre + "`" * k + " " + t + " " + "`" * k
             want = t.replace("\n", " ")
             res.append(Case("parse CsW 100 TR %s" % hx(wrapf(d)), "span-" + ctx, {"kind": "CodeInline", "want": hx(want), "src": hx(t)}))
